@@ -28,6 +28,7 @@ type ty struct {
 	id        int  // named: index of constructor family
 	feats     map[string]bool
 	iface     []string // named interface: method names
+	solo      bool     // gets a unit of its own but is never used inside other types (listed findings)
 }
 
 type field struct {
@@ -122,7 +123,7 @@ func (p *pool) anyType(pkg string, depth int) *ty {
 	for _, t := range p.types {
 		// named func types are a listed finding (C15:named-func-type): they get a unit of their own but are not
 		// used inside other types
-		if (pkg == "main" || t.pkg == "lib") && !(t.kind == "func") {
+		if visible(t, pkg) && !(t.kind == "func") && !t.solo {
 			cands = append(cands, t)
 		}
 	}
@@ -139,7 +140,7 @@ func (p *pool) anyType(pkg string, depth int) *ty {
 		return &ty{kind: "slice", elem: e, hasFunc: e.hasFunc}
 	case k == 7:
 		e := p.anyType(pkg, depth+1)
-		return &ty{kind: "array", elem: e, alen: p.pick(4, "alen"), comp: e.comp, hasFunc: e.hasFunc}
+		return &ty{kind: "array", elem: e, alen: []int{0, 0, 1, 2, 3}[p.pick(5, "alen")], comp: e.comp, hasFunc: e.hasFunc}
 	case k == 8:
 		key := p.keyType(pkg)
 		e := p.anyType(pkg, depth+1)
@@ -159,7 +160,7 @@ func (p *pool) anyType(pkg string, depth int) *ty {
 func (p *pool) keyType(pkg string) *ty {
 	var cands []*ty
 	for _, t := range p.types {
-		if (pkg == "main" || t.pkg == "lib") && t.comp && !t.hasFunc && t.kind != "iface" && !containsFloat(t) {
+		if visible(t, pkg) && !t.solo && t.comp && !t.hasFunc && t.kind != "iface" && !containsFloat(t) {
 			cands = append(cands, t)
 		}
 	}
@@ -184,6 +185,27 @@ func containsFloat(t *ty) bool {
 		}
 	}
 	return false
+}
+
+// visible: named type t can be mentioned from package pkg.
+func visible(t *ty, pkg string) bool {
+	if !t.named() {
+		for _, x := range []*ty{t.elem, t.key} {
+			if x != nil && !visible(x, pkg) {
+				return false
+			}
+		}
+		return true
+	}
+	for _, a := range t.targs {
+		if !visible(a, pkg) {
+			return false
+		}
+	}
+	if t.pkg == pkg {
+		return true
+	}
+	return pkg == "main" && t.name[0] >= 'A' && t.name[0] <= 'Z'
 }
 
 func (p *pool) newNamed(pkg, prefix, kind string) *ty {
@@ -229,7 +251,7 @@ func (p *pool) declare(pkg string) *ty {
 	b := p.decls[pkg]
 	var structs, embeddable []*ty
 	for _, t := range p.types {
-		if pkg == "main" || t.pkg == "lib" {
+		if visible(t, pkg) && !t.solo {
 			if t.kind == "struct" {
 				structs = append(structs, t)
 			}
@@ -240,28 +262,58 @@ func (p *pool) declare(pkg string) *ty {
 	}
 	switch k := p.pick(10, "declkind"); {
 	case k <= 1: // named basic
-		t := p.newNamed(pkg, "N", "basic")
+		t := p.newNamed(pkg, []string{"N", "N", "N", "n"}[p.pick(4, "unexportedType")], "basic")
+		if t.name[0] == 'n' {
+			t.feats["unexported_type"] = true
+		}
 		t.basic = basics[p.pick(len(basics), "nbasic")]
 		t.comp = true
 		fmt.Fprintf(b, "type %s %s\n\n", t.name, t.basic)
 		p.methods(t, t.name, b)
 		return t
 	case k <= 5: // struct
-		t := p.newNamed(pkg, "S", "struct")
+		t := p.newNamed(pkg, []string{"S", "S", "s"}[p.pick(3, "unexportedType")], "struct")
+		if t.name[0] == 's' {
+			t.feats["unexported_type"] = true
+		}
 		t.comp = true
 		nf := p.pick(6, "nfields")
+		if p.pick(6, "blankZeroArray") == 0 {
+			// the "_ [0]func()" idiom: a zero-size blank field that makes the struct incomparable
+			bt := &ty{kind: "array", alen: 0, elem: &ty{kind: "func", basic: "func()", hasFunc: true}}
+			t.fields = append(t.fields, field{name: "_", t: bt})
+			t.comp = false
+			t.feats["blank_zero_length_array_field"] = true
+		}
 		used := map[string]bool{}
 		fmt.Fprintf(b, "type %s struct {\n", t.name)
+		if len(t.fields) == 1 {
+			b.WriteString("\t_ [0]func()\n")
+		}
 		for i := 0; i < nf; i++ {
 			var f field
 			if len(embeddable) > 0 && p.pick(4, "embed") == 0 {
 				e := embeddable[p.pick(len(embeddable), "embedded")]
+				// exported fields reached through an embedded struct of unexported type have access rules of their
+				// own in reflect and fmt: prefer such types when there are any
+				var unexp []*ty
+				for _, c := range embeddable {
+					if c.kind == "struct" && c.name[0] >= 'a' && c.name[0] <= 'z' {
+						unexp = append(unexp, c)
+					}
+				}
+				if len(unexp) > 0 && p.pick(2, "preferUnexported") == 0 {
+					e = unexp[p.pick(len(unexp), "embeddedUnexported")]
+				}
 				f = field{name: e.name, t: e, embedded: true}
 				if e.kind != "iface" && p.pick(2, "embedptr") == 0 {
 					f.t = &ty{kind: "ptr", elem: e, comp: true, hasFunc: e.hasFunc}
 					t.feats["embedded_pointer"] = true
 				}
 				t.feats["embedded_field"] = true
+				if e.name[0] >= 'a' && e.name[0] <= 'z' {
+					t.feats["embedded_unexported_type"] = true
+				}
 				if len(e.targs) > 0 {
 					t.feats["embedded_generic_instance"] = true
 				}
@@ -293,6 +345,13 @@ func (p *pool) declare(pkg string) *ty {
 			}
 			fmt.Fprintf(b, "\t%s\n", decl)
 			p.fnames = append(p.fnames, f.name)
+		}
+		if zeroSize(t) {
+			// methods of zero-size types reached through nil pointers are a listed finding (dedicated unit only)
+			f := field{name: "Fpad", t: basicTy("int8")}
+			t.fields = append(t.fields, f)
+			b.WriteString("\tFpad int8\n")
+			p.fnames = append(p.fnames, "Fpad")
 		}
 		if n := len(t.fields); n > 0 && zeroSize(t.fields[n-1].t) && !zeroSize(t) {
 			// a zero-size last field after non-empty ones is the C08 listed finding (LLVM struct without the
@@ -346,7 +405,7 @@ func (p *pool) declare(pkg string) *ty {
 		t := p.newNamed(pkg, "C", u.kind)
 		t.elem, t.key, t.alen, t.dir, t.basic, t.hasFunc, t.comp = u.elem, u.key, u.alen, u.dir, u.basic, u.hasFunc, u.comp
 		fmt.Fprintf(b, "type %s %s\n\n", t.name, u.in(pkg))
-		if u.kind != "ptr" {
+		if u.kind != "ptr" && !zeroSize(t) {
 			p.methods(t, t.name, b)
 		}
 		t.feats["named_composite"] = true
@@ -470,8 +529,8 @@ func (p *pool) value(t *ty, pkg string, depth, variant int) string {
 				}
 				continue
 			}
-			if variant%3 == 0 && i%2 == 1 {
-				continue // leave some fields zero
+			if f.name == "_" || (variant%3 == 0 && i%2 == 1) {
+				continue // blank fields cannot be set; leave some others zero
 			}
 			el = append(el, fmt.Sprintf("%s: %s", f.name, p.value(f.t, pkg, depth+1, variant+i)))
 		}
@@ -496,8 +555,24 @@ func (p *pool) zeroSizeResultType() *ty {
 	t := p.newNamed("main", "Z", "struct")
 	t.comp = true
 	b := p.decls["main"]
-	fmt.Fprintf(b, "type %s struct{}\n\nfunc (%s) Arr() [0]int { return [0]int{} }\nfunc (%s) Empty() struct{} { return struct{}{} }\nfunc (%s) Two() (int, [0]int) { return 1, [0]int{} }\nfunc (%s) Zeta() string { return \"%s.Zeta\" }\n\n", t.name, t.name, t.name, t.name, t.name, t.name)
+	fmt.Fprintf(b, "type %s struct{ pad int8 }\n\nfunc (%s) Arr() [0]int { return [0]int{} }\nfunc (%s) Empty() struct{} { return struct{}{} }\nfunc (%s) Two() (int, [0]int) { return 1, [0]int{} }\nfunc (%s) Zeta() string { return \"%s.Zeta\" }\n\n", t.name, t.name, t.name, t.name, t.name, t.name)
 	t.feats["zero_size_result_method"] = true
 	t.feats["value_receiver_method"] = true
+	t.fields = []field{{name: "pad", t: basicTy("int8")}}
+	t.solo = true
+	return t
+}
+
+// zeroSizeReceiverType declares the dedicated type for the listed finding
+// C15:call:nil-pointer-receiver-not-dereferenced: an empty struct with value-receiver methods.
+func (p *pool) zeroSizeReceiverType() *ty {
+	t := p.newNamed("main", "E", "struct")
+	t.comp = true
+	b := p.decls["main"]
+	fmt.Fprintf(b, "type %s struct{}\n\nfunc (%s) String() string { return \"%s.String\" }\nfunc (%s) Alpha() string { return \"%s.Alpha\" }\n\n", t.name, t.name, t.name, t.name, t.name)
+	t.feats["zero_size_receiver"] = true
+	t.feats["value_receiver_method"] = true
+	t.feats["fmt_interface_method"] = true
+	t.solo = true
 	return t
 }
